@@ -52,30 +52,58 @@ def mime(rng, canonical):
     return rng.choice(MIME_CASE[canonical]) if rng.random() < 0.06 else canonical
 
 
-def label_class(case, carrier):
-    """the declared-metadata dimension a case exercises on one carrier: a media type not written in lower case,
-    an event stream labelled with another charset than UTF-8 or starting with a byte order mark (else None)"""
+def neutralisations(case, carrier):
+    """the dimensions with an OPEN or FIXED finding of their own that a case exercises on one carrier, each with the case
+    as it is without that dimension: [(class, case')].  The oracle blames a class only when the difference goes away
+    with it (so that, once such a finding is fixed, its key shows up for a regression only)."""
     w = case.get("wire") or {}
     many = lambda v: [v] if isinstance(v, dict) else (v or [])
-    if carrier == "http_json":
-        if any(c.get("mime", "").lower() != c.get("mime", "") for c in many(w.get("json"))):
-            return "media-type-case"
-    elif carrier == "http_sse":
-        bs = many(w.get("httpsse"))
-        if any(c.get("mime", "").lower() != c.get("mime", "") for c in bs):
-            return "media-type-case"
-        if any(c.get("bom") or names_other_charset(c.get("ctp")) for c in bs):
-            return "event-stream-label"
-    elif carrier == "sse":
+    out = []
+
+    def without(edit):
+        c = copy.deepcopy(case)
+        edit(c)
+        return c
+
+    def edit_wire(key, f):
+        def go(c):
+            v = c["wire"][key]
+            for b in ([v] if isinstance(v, dict) else v):
+                f(b)
+        return go
+
+    def lower_mime(b):
+        if "mime" in b:
+            b["mime"] = b["mime"].lower()
+
+    def plain_label(b):
+        b["bom"] = False
+        if names_other_charset(b.get("ctp")):
+            b["ctp"] = None
+
+    key = {"http_json": "json", "http_sse": "httpsse"}.get(carrier)
+    if key and any(c.get("mime", "").lower() != c.get("mime", "") for c in many(w.get(key))):
+        out.append(("media-type-case", without(edit_wire(key, lower_mime))))
+    if carrier == "http_sse" and any(c.get("bom") or names_other_charset(c.get("ctp")) for c in many(w.get("httpsse"))):
+        out.append(("event-stream-label", without(edit_wire("httpsse", plain_label))))
+    if carrier == "sse":
         e = w.get("sse") or {}
         if e.get("bom") or names_other_charset(e.get("ctp")):
-            return "event-stream-label"
+            out.append(("event-stream-label", without(edit_wire("sse", plain_label))))
         if any((x["call"].get("pause") or 0) >= SSE_TIMEOUT_TICKS for x in case.get("xs") or []):
-            return "consumer-slower-than-timeout"
+            def quick(c):
+                for x in c["xs"]:
+                    if (x["call"].get("pause") or 0) >= SSE_TIMEOUT_TICKS:
+                        x["call"]["pause"] = 700
+            out.append(("consumer-slower-than-timeout", without(quick)))
         ids = [x["call"]["id"] for x in case.get("xs") or [] if isinstance(x["call"].get("id"), dict)]
         if any(("i" in a) != ("i" in b) and str(a.get("i", a.get("s"))) == str(b.get("i", b.get("s"))) for a in ids for b in ids):
-            return "id-twins"   # 7 and "7" used as request ids on one connection
-    return None
+            def apart(c):   # 7 and "7" used as request ids on one connection: the string ids get a suffix
+                for x in c["xs"]:
+                    if isinstance(x["call"].get("id"), dict) and "s" in x["call"]["id"]:
+                        x["call"]["id"] = {"s": x["call"]["id"]["s"] + "-s"}
+            out.append(("id-twins", without(apart)))
+    return out
 
 
 KEYS = ["k", "é", "", "a b", "\U0001F600", "data", "id", "jsonrpc", "method", "params", "result", "error", "_meta", "progressToken", "%s", "{}",
